@@ -8,6 +8,8 @@ pub mod c05;
 pub mod c06;
 pub mod c07;
 pub mod c08;
+pub mod c09;
+pub mod c10;
 pub mod c11;
 pub mod c12;
 
@@ -23,6 +25,8 @@ pub fn run(ctx: &mut Ctx) {
         "C06" => c06::run_check(ctx),
         "C07" => c07::run_check(ctx),
         "C08" => c08::run_check(ctx),
+        "C09" => c09::run_check(ctx),
+        "C10" => c10::run_check(ctx),
         "C11" => c11::run_check(ctx),
         "C12" => c12::run_check12(ctx),
         "C13" => c12::run_check13(ctx),
@@ -43,6 +47,8 @@ pub fn replay(ctx: &mut Ctx, case: &serde_json::Value) {
         "C06" => c06::replay(ctx, case),
         "C07" => c07::replay(ctx, case),
         "C08" => c08::replay(ctx, case),
+        "C09" => c09::replay(ctx, case),
+        "C10" => c10::replay(ctx, case),
         "C11" => c11::replay(ctx, case),
         "C12" | "C13" => c12::replay(ctx, case),
         other => {
